@@ -13,7 +13,7 @@ HistContainer = imp("kafe2.fit.histogram.container").HistContainer
 IndexedParametricModel = imp("kafe2.fit.indexed.model").IndexedParametricModel
 XYParametricModel = imp("kafe2.fit.xy.model").XYParametricModel
 HistParametricModel = imp("kafe2.fit.histogram.model").HistParametricModel
-R = Runner("C02", args, scope="7 container kinds x histories of <= 3 operations (4 thorough) from {add simple abs/rel (rho 0 / 0.3), add matrix cov abs/rel, cor+err abs/rel, disable, enable, value change, read} x observers err/cov/cor/inverse",
+R = Runner("C02", args, scope="11 container kinds / ways of changing the values (data, x, y setters, fill, rebin, set_bins, model parameters, model support) x histories of <= 3 operations (4 thorough) from {add simple abs/rel (rho 0 / 0.3), add matrix cov abs/rel, cor+err abs/rel, disable, enable, value change, read} x observers err/cov/cor/inverse",
            rule="exhaustive enumeration of operation sequences per container kind; final state compared with the from-scratch formula")
 
 N = 3
@@ -61,8 +61,11 @@ class Kind:
             self.axis = "x" if kind == "xy_x" else "y"
         elif kind == "xy_model_placeholder":
             pass
-        elif kind == "hist":
+        elif kind in ("hist", "hist_rebin", "hist_set_bins"):
             self.c = HistContainer(3, (0.0, 3.0), fill_data=[0.5, 1.5, 1.6, 2.5, 2.6, 2.7])
+        elif kind == "xy_model_x":
+            self.c = XYParametricModel([1.0, 2.0, 3.0], lambda x, a, b: a * x + b, [1.0, 0.5])
+            self.axis = "x"
         elif kind == "indexed_model":
             self.c = IndexedParametricModel(lambda a, b: a * np.arange(1, 4) + b, [1.0, 0.5], shape_like=np.zeros(3))
         elif kind == "xy_model":
@@ -95,6 +98,12 @@ class Kind:
             new = np.array([2.0, 4.0, 5.0]) * (1 + s); c.data = [[1.0, 2.0, 3.0], list(new)]
         elif k == "hist":
             c.fill([0.2, 0.4, 1.1] * s); new = None
+        elif k == "hist_rebin":          # same number of bins, other edges: the contents change
+            c.rebin([[0.0, 1.55, 2.55, 3.0], [0.0, 0.6, 1.58, 3.0], [0.0, 1.0, 2.65, 3.0]][s % 3]); new = None
+        elif k == "hist_set_bins":
+            c.set_bins([2 + s, 1, 3 * s]); new = None
+        elif k == "xy_model_x":
+            new = np.array([1.0, 2.0, 3.0]) * (1 + s); c.x = new
         elif k.endswith("model"):
             c.parameters = [1.0 + s, 0.5 * (s + 1)]; new = None
         return new
@@ -123,7 +132,7 @@ class Kind:
         return {"err": lambda: c.err, "cov": lambda: c.cov_mat, "cor": lambda: c.cor_mat, "inv": lambda: c.cov_mat_inverse}[which]()
 
 
-KINDS = ["indexed", "xy_y", "xy_x", "xy_data", "hist", "indexed_model", "xy_model", "hist_model"]
+KINDS = ["indexed", "xy_y", "xy_x", "xy_data", "hist", "indexed_model", "xy_model", "hist_model", "hist_rebin", "hist_set_bins", "xy_model_x"]
 OPS = ["add:s_abs", "add:s_abs_c", "add:s_rel", "add:s_rel_c", "add:m_cov", "add:m_cov_rel", "add:m_cor", "add:m_cor_rel", "disable", "enable", "change", "read:err", "read:cov", "read:cor"]
 
 
